@@ -17,7 +17,9 @@ UTC = datetime.timezone.utc
 def _eval(src):
     import ipaddress
 
-    return eval(src, dict(V.NS, PurePosixPath=pathlib.PurePosixPath, PureWindowsPath=pathlib.PureWindowsPath, IP4=ipaddress.IPv4Address, IP6=ipaddress.IPv6Address))
+    import struct
+
+    return eval(src, dict(V.NS, PurePosixPath=pathlib.PurePosixPath, PureWindowsPath=pathlib.PureWindowsPath, IP4=ipaddress.IPv4Address, IP6=ipaddress.IPv6Address, F64=lambda h: struct.unpack(">d", bytes.fromhex(h))[0]))
 
 
 def deep(v):
@@ -36,7 +38,9 @@ def deep(v):
     if isinstance(v, dict):
         return ("dict", tuple((k, deep(e)) for k, e in v.items()))
     if isinstance(v, float):
-        return (type(v).__name__, float(v).hex())
+        import struct
+
+        return (type(v).__name__, struct.pack(">d", float(v)).hex())  # the bit pattern (float.hex() says 'nan' for every NaN)
     if isinstance(v, datetime.datetime):
         return (type(v).__name__, v.isoformat(), v.utcoffset().total_seconds() if v.utcoffset() is not None else None)
     if isinstance(v, FieldType) and hasattr(v, "_pack") and not isinstance(v, (int, str, bytes, float)):
@@ -279,4 +283,25 @@ def c01_grouped_same_name(x=0, s="", y=0):
     A2 = RecordDescriptor("c01/a", [("string", "s"), ("varint", "n")])
     return _compare([A(n=x), GroupedRecord("c01/grp", [A2(s=s, n=y), A(n=3)]), A2(s="after", n=4)])
 
-CALLS = {"c01_grouped_same_name": c01_grouped_same_name, "c01_meta_unset": c01_meta_unset, "c01_refused_between": c01_refused_between, "c01_ignore_scope": c01_ignore_scope, "c01_value": c01_value, "c01_obs": c01_obs, "c01_keyword": c01_keyword, "c01_meta": c01_meta, "c01_sequence": c01_sequence, "c01_nested": c01_nested, "c01_grouped": c01_grouped, "c01_sweep": c01_sweep, "c01_alias": c01_alias, "c01_same_instant": c01_same_instant}
+
+def c01_buffer_history(kind="bytearray"):
+    """a bytes field given a mutable buffer that the caller changes after the record was created (when the buffer is accepted at all)"""
+    from flow.record import RecordDescriptor
+
+    D = RecordDescriptor("c01/buf", [("bytes", "x"), ("bytes[]", "l")])
+    buf = bytearray(b"AAAAAAAA")
+    src = buf if kind == "bytearray" else memoryview(buf)
+    try:
+        r = D(x=src, l=[src])
+    except (TypeError, ValueError):
+        return {"violates": False, "note": "the mutable buffer is refused"}
+    before = deep(r)
+    buf[:] = b"DDDDDDDD"
+    try:
+        back = _roundtrip([r])
+    except Exception as e:
+        return {"violates": True, "detail": f"round trip raised {type(e).__name__}: {e}"}
+    after = deep(back[0])
+    return {"violates": after != before, "detail": f"the record held {before[3][:2]!r} when it was created, the stream gave back {after[3][:2]!r}"}
+
+CALLS = {"c01_buffer_history": c01_buffer_history, "c01_grouped_same_name": c01_grouped_same_name, "c01_meta_unset": c01_meta_unset, "c01_refused_between": c01_refused_between, "c01_ignore_scope": c01_ignore_scope, "c01_value": c01_value, "c01_obs": c01_obs, "c01_keyword": c01_keyword, "c01_meta": c01_meta, "c01_sequence": c01_sequence, "c01_nested": c01_nested, "c01_grouped": c01_grouped, "c01_sweep": c01_sweep, "c01_alias": c01_alias, "c01_same_instant": c01_same_instant}
